@@ -35,9 +35,10 @@ Arguments Stored {A} a.
 Arguments Rejected {A}.
 Arguments HostPanic {A}.
 
-(* the enum E of the schema: A = 0, B = 1, C = 5 *)
-Definition enum_numbers : list Z := [0; 1; 5].
-Definition enum_names : list (list Z * Z) := [([65], 0); ([66], 1); ([67], 5)].
+(* the enum E of the schema, declared with gaps, out of numeric order and with a
+   negative number: A = 0, B = 2, C = 5, D = 1, G = 3, N = -2 *)
+Definition enum_numbers : list Z := [0; 2; 5; 1; 3; -2].
+Definition enum_names : list (list Z * Z) := [([65], 0); ([66], 2); ([67], 5); ([68], 1); ([71], 3); ([78], -2)].
 Definition enum_has (n : Z) : bool := existsb (Z.eqb n) enum_numbers.
 
 Fixpoint bytes_eqb (a b : list Z) : bool :=
